@@ -10,7 +10,9 @@ def c15(res, st, std_coq):
     if not (st["go"] and st["driver"]):
         return
     rnd = random.Random(res.seed)
-    tbl = os.path.join(vlib.BUILD, "isprint.tbl")
+    tbl = os.path.join(vlib.BUILD, "isprint-%s-%d.tbl" % (res.pid, os.getpid()))   # per run: checks may run side by side
+    import atexit
+    atexit.register(lambda p=tbl: os.path.exists(p) and os.remove(p))
     with open(tbl, "w") as f:
         f.write("\n".join(vlib._run_out([vlib.HARNESS, "isprint-table"])) + "\n")
     # unicode tables / utf8 of the model vs Go
